@@ -605,8 +605,10 @@ def discharge(obligations, timeout_ms=20000, tactic=None, retry_ms=None, use_cvc
     # sensitive to the search order and to machine load; a proof, when it exists, is usually found quickly by some seed)
     und = [i for i, r in enumerate(results) if r.status == "unknown"]
     if und and os.environ.get("PYVC_NO_RETRY") != "1":
-        long_ms = max(4 * timeout_ms, 120000)
-        jobs = [(i, ex.submit(_retry, obligations[i], long_ms, seed)) for i in und[:40] for seed in (11, 12, 13, 14)]
+        quick = os.environ.get("PYVC_TIER", "quick") == "quick"
+        long_ms = max(3 * timeout_ms, 90000) if quick else max(4 * timeout_ms, 120000)
+        seeds = (11, 12) if quick else (11, 12, 13, 14)
+        jobs = [(i, ex.submit(_retry, obligations[i], long_ms, seed)) for i in und[:40] for seed in seeds]
         for i, fu in jobs:
             try:
                 r, t = fu.result()
